@@ -282,5 +282,5 @@ def shard(ctx):
     import warnings
 
     warnings.simplefilter("ignore")
-    ctx.hyp_run(strategy(), max_examples=ctx.pick(40, 700), shrink=True)
+    ctx.hyp_run(strategy(), max_examples=ctx.pick(100, 1200), shrink=True)
     ctx.stats.extra.update(_STATS)
